@@ -54,6 +54,24 @@ CHECKS = {
              "sanitizers report reads outside the registry.",
         note="No duplicate entries are generated; sizes above 40 only via the full registries.",
         design="2/C10"),
+    "C11": dict(
+        technique="exhaustive enumeration over all zones/links/constants vs independent djb2 + set algebra; Hypothesis names and constructed collisions",
+        text="Every registry entry, declared zone symbol, link symbol and kZoneId constant of zonedb and zonedbx (decoded through the "
+             "brokers and a TU generated from zone_infos.h), every zonedbpy name, every baseline name, and the databases freshly "
+             "compiled by tzcompiler.py from the reconstructed source: id == djb2(name), unique, equal across databases and the "
+             "recorded baseline, registry strictly ascending and equal to the declared set, link address/name == target; "
+             "Hypothesis-generated names for hash_name and constructed djb2 collisions for _detect_hash_collisions. Complete over "
+             "the shipped data.",
+        note="'Earlier releases' = baselines/zone_ids.tsv recorded from the shipped 1.2.1 tables.",
+        design="2/C11"),
+    "C12": dict(
+        technique="exhaustive per-field round trip (generator -> clang -> brokers) + translation check of shipped tables against regeneration",
+        text="(a) the full product of admissible values per encoded field (4,503 AT/UNTIL times x suffix in rule and era position, 1,921 "
+             "extended / 129 basic offsets, 16 SAVE values, boundary years, single and 1..31 multi-character letters) pushed through "
+             "ArduinoGenerator.generate_files, compiled, and read back through the Zone*Brokers; (b) every shipped zonedb/zonedbx file "
+             "equals tzcompiler.py's output on the recorded raw lines (token level) and decodes to the same values.",
+        note="Single letters restricted to [A-Za-z0-9+-^_]. Unsupported/notable comment lists and the invocation header are ignored in (b).",
+        design="2/C12", category="exploration"),
     "C13": dict(
         technique="exhaustive (phase, gap) enumeration + Hypothesis stateful schedules vs unbounded-integer reference model",
         text="SystemClock with an injected millisecond counter: in-driver enumeration of every start phase mod 65536 x 210 gaps "
